@@ -41,7 +41,8 @@ type rowT struct {
 	ID        int    `json:"id"`
 	Dir       string `json:"dir"`
 	Cert      bool   `json:"cert"`
-	SkiLen    string `json:"skiLen"`
+	SkiLen    int    `json:"skiLen"`
+	Len       int    `json:"len"`
 	Binding   string `json:"binding"`
 	TLS       int    `json:"tls"`
 	Sub       string `json:"sub"`
@@ -74,7 +75,7 @@ func keySki(pub *ecdsa.PublicKey) []byte {
 
 var victimSki []byte
 
-func forge(skiLen, binding string) (tls.Certificate, []byte) {
+func forge(skiLen int, binding string) (tls.Certificate, []byte) {
 	priv, _ := ecdsa.GenerateKey(elliptic.P256(), rand.Reader)
 	base := keySki(&priv.PublicKey)
 	switch binding {
@@ -84,20 +85,10 @@ func forge(skiLen, binding string) (tls.Certificate, []byte) {
 		base = make([]byte, 20)
 		_, _ = rand.Read(base)
 	}
+	// skiLen bytes: a prefix of the 20 byte value, or the value repeated; 0 = no SKI extension
 	var ski []byte
-	switch skiLen {
-	case "absent":
-		ski = nil
-	case "l1":
-		ski = base[:1]
-	case "l19":
-		ski = base[:19]
-	case "l20":
-		ski = base
-	case "l21":
-		ski = append(append([]byte{}, base...), 0x42)
-	case "l40":
-		ski = append(append([]byte{}, base...), base...)
+	for len(ski) < skiLen {
+		ski = append(ski, base[len(ski)%20])
 	}
 	serial, _ := rand.Int(rand.Reader, big.NewInt(1<<62))
 	tpl := x509.Certificate{SignatureAlgorithm: x509.ECDSAWithSHA256, SerialNumber: serial, Subject: pkix.Name{CommonName: "forged"},
@@ -234,7 +225,7 @@ func inbound(r rowT, port int, rec *recorder) resT {
 
 func outbound(r rowT, h *hub.Hub) resT {
 	res := resT{}
-	victim, _ := forge("l20", "ownKey")
+	victim, _ := forge(20, "ownKey")
 	vcert, _ := x509.ParseCertificate(victim.Certificate[0])
 	dialled := hex.EncodeToString(vcert.SubjectKeyId)
 	present := victim
@@ -242,16 +233,16 @@ func outbound(r rowT, h *hub.Hub) resT {
 	case "sameSkiOtherKey":
 		old := victimSki
 		victimSki = vcert.SubjectKeyId
-		present, _ = forge("l20", "copied")
+		present, _ = forge(20, "copied")
 		victimSki = old
 	case "other":
-		present, _ = forge("l20", "ownKey")
+		present, _ = forge(20, "ownKey")
 	case "absent":
-		present, _ = forge("absent", "ownKey")
-	case "l19":
-		present, _ = forge("l19", "ownKey")
-	case "l21":
-		present, _ = forge("l21", "ownKey")
+		present, _ = forge(0, "ownKey")
+	case "ownLen":
+		var ski []byte
+		present, ski = forge(r.Len, "ownKey")
+		dialled = hex.EncodeToString(ski)
 	}
 	got := make(chan bool, 4)
 	up := websocket.Upgrader{Subprotocols: []string{"ship"}}
@@ -349,7 +340,7 @@ func main() {
 		os.Exit(2)
 	}
 	util.VerifSetDelayScale(0)
-	v, _ := forge("l20", "ownKey")
+	v, _ := forge(20, "ownKey")
 	vc, _ := x509.ParseCertificate(v.Certificate[0])
 	victimSki = vc.SubjectKeyId
 	hubCert, err := cert.CreateCertificate("unit", "org", "DE", "hub-under-test")
